@@ -22,7 +22,7 @@ func intT(bits int) types.Info {
 
 func init() {
 	// the compiler resolves the MPCL library from $MPCLDIR/pkg
-	os.Setenv("MPCLDIR", "/repo")
+	os.Setenv("MPCLDIR", vrt.Repo)
 }
 
 // compileMPCL compiles source with params (nil = defaults) and input sizes.
